@@ -31,6 +31,12 @@ CLAIMED = {
  "C16": dict(text="Part of the property, Verus on the real deserialize_os_ipc_sender/receiver, IpcSharedMemory::deserialize and OpaqueIpcMessage::to with an ARBITRARY decoded index: no index/unwrap panic (auto-obligations), the endpoint returned is an attachment of this very message, the side tables are restored before the result is looked at. Open known finding: a channel index used twice. bincode's own behaviour on corrupt bytes is outside; release of unclaimed descriptors is OsOpaqueIpcChannel::drop (Kani ledger when present).",
              design="DESIGN.md 3/U7, 4/C16, 5", technique="Verus auto-obligations (bounds, unwrap) + postconditions on extracted real code, arbitrary index",
              note="Trusted: serde/bincode stubs; thread-locals modelled as explicit &mut Tls."),
+ "C05": dict(text="Verus on the real shared-memory functions against a ghost file/mapping model: OsIpcSharedMemory::from_bytes reads back exactly the bytes (every length incl. 0 and non-page multiples), from_byte reads back the fill, clone has the same length and bytes over its own descriptor and mapping, from_fd maps the whole file, deref returns exactly the mapped bytes and never builds a slice from a null pointer, drop unmaps exactly its own mapping; IpcSharedMemory::{from_bytes, from_byte, deref, empty} on top of them; region order through send/recv (U2/U3/U23) and the region index<->position layer (U7). That mmap(MAP_SHARED) of one file object shows the same bytes in every process is the kernel assumption.",
+             design="DESIGN.md 3/U8, 4/C05", technique="Verus representation invariant (wf) + postconditions over a ghost file/mapping model on extracted real code",
+             note="Trusted: shm_open/ftruncate/mmap/munmap/fcntl(F_DUPFD_CLOEXEC) stubs, the fill loop of from_byte (elision E4: replaced by a stub stating exactly the fill), raw copy (E5) and slice::from_raw_parts (E6) stubs carrying std's safety contracts."),
+ "C06": dict(text="Part of the property, Verus on the real OsIpcReceiverSet::{add, select}: ids are fresh and strictly increasing (no two live members share one); a representation invariant ties the map, the epoll interest list and the owned descriptors; every message/closure a member's non-blocking receive yields is reported exactly once, in order, under the id add returned; every member reported ready is drained until EWOULDBLOCK or closed (what edge-triggered polling needs); a closed member is removed, deregistered and closed exactly once; EINTR never makes select return empty-handed; the expect/unwrap/assert! are total. That epoll eventually reports every ready member, and interleavings with sender threads, are assumed.",
+             design="DESIGN.md 3/U5, 4/C06", technique="Verus representation invariant + loop invariants/ensures over a ghost event log on extracted real code",
+             note="Trusted: mio Poll/Events/Token stand-ins (epoll batch: <=10 distinct registered readable tokens; edge-triggered), unix::recv stub (contract proved in U3/K4), HashMap specs of vstd with an assumed key model for Token, id counter not exhausted."),
  "C07": dict(text="Verus on the real Router::run with ghost logs: every MessageReceived(id, m) the receiver set reports for a route is passed exactly once, in report order, to the handler registered under id (calls == delivered, as an invariant of both loops); the handler lookup cannot fail; a handler is removed exactly on ChannelClosed(id) and no handler outlives its channel. The receiver set's own behaviour (C06), the crossbeam forwarding closures and cross-thread registration (one mutex) are assumed.",
              design="DESIGN.md 3/U6, 4/C07", technique="Verus loop invariants over ghost delivery/invocation logs on extracted real code",
              note="Trusted: IpcReceiverSet stub (ids are members, none after ChannelClosed, ids never reused), wake-up/RouterMsg pairing, the handler-call stub router_invoke (D5), HashMap specs of vstd."),
